@@ -4,7 +4,12 @@
    Terms are the shapes the Rust code looks at; everything it refuses to compare structurally (a
    function, a let, a primop application, ...) is [KOpaque id]: such terms are only ever equal
    "physically", i.e. when both sides reach the same definition ([id] is the identity of the
-   definition site).  An environment maps variables to closures.  [gas] bounds the number of
+   definition site).  A contract that refers to a field of its own recursive record (a revertible
+   thunk with dependencies: its original expression has free variables that are not bound in its
+   original environment) is also [KOpaque] with an id of its own: since fix 8bd83bf the code never
+   compares such thunks structurally (before, it looked the field name up in the OUTER environment
+   and could equate it with an unrelated binding of the same name).  An environment maps variables
+   to closures.  [gas] bounds the number of
    variable links followed (MAX_GAS = 12); in the Rust code the gas counter is shared by the whole
    comparison, here it is per path (the model answers [true] at least as often as the code; the
    soundness theorem below therefore covers the code's answers).  [n] is structural fuel. *)
